@@ -2,6 +2,7 @@ import SplinkVerif.Drv.CC
 import SplinkVerif.Drv.CCSql
 import SplinkVerif.Drv.MultiThreshold
 import SplinkVerif.Drv.Blocking
+import SplinkVerif.Drv.BlockSql
 import SplinkVerif.Drv.Score
 import SplinkVerif.Drv.Arith
 import SplinkVerif.Drv.BlockingAnalysis
@@ -29,6 +30,7 @@ def dispatch (j : Json) : Except String Json := do
   | "gm_sql" => handleGMSql j
   | "multi" => handleMulti j
   | "block" => handleBlock j
+  | "block_sql" => handleBlockSql j
   | "score" => handleScore j
   | "arith" => handleArith j
   | "blockanalysis" => handleBlockAnalysis j
